@@ -103,7 +103,7 @@ RESULTS3 = {
  "C10-r3-1": ("C10", ""),
  "C10-r3-2": ("C10", "after user names with a backslash were added"),
  "C10-r3-3": ("C10", "after authentication failures reported wrapped (%w) were added"),
- "C10-r3-4": ("", "MISSED: needs a camera-like scripted server (session-level control attribute naming another host, DESCRIBE open, SETUP protected) in front of the library's client; C10's servers are the library's own"),
+ "C10-r3-4": ("C20", "C20 after its scripted camera got late authentication (DESCRIBE open, the first challenge comes with SETUP) next to a session-level control attribute that names another host; C10's servers are the library's own"),
  "C11-r3-1": ("C01", "C01 (holds inside the WebSocket writer's underlying writes, keep-alives during play): gorilla's concurrent-write panic; C11's hostile peers do not play through the WebSocket tunnel"),
  "C11-r3-2": ("C13", "C13 (UDP publisher closed while its packets arrive, holds in the UDP listener): server crash"),
  "C11-r3-3": ("C11", "after the tunnel race scenario was run in 10% of the runs with resets of the POST half"),
